@@ -42,6 +42,7 @@ pub fn new_sim(base: &Path, case: &Case, seed: u64) -> Sim {
     sim.mon.wal_wellformed = true;
     sim.mon.no_dangling = true;
     sim.mon.n = case.workload.cfg.n;
+    sim.mon.own = case.property.clone();
     if let Some(n) = &case.noise {
         sim.plan.short_write_pm = n.short_write_pm;
         sim.plan.short_read_pm = n.short_read_pm;
@@ -80,14 +81,20 @@ pub fn finish_sim(out: &mut Outcome, sim: &mut Sim, base: &Path, check_fidelity:
     if out.harness_error.is_none() {
         out.harness_error = sim.harness_error.take();
     }
+    let to_failure = |v: crate::monitors::MonViolation| Failure {
+        props: vec![v.property.clone()],
+        class: format!("{}:{}", v.monitor, v.class),
+        op_index: if v.op >= crate::modes::OPEN_OP { 0 } else { v.op as usize },
+        message: format!("step {}: {}", v.step, v.message),
+    };
     if out.violation.is_none() {
-        if let Some(v) = sim.mon.violation.take() {
-            out.violation = Some(Failure {
-                props: vec![v.property.clone()],
-                class: format!("{}:{}", v.monitor, v.class),
-                op_index: v.op as usize,
-                message: format!("step {}: {}", v.step, v.message),
-            });
+        if let Some(v) = sim.mon.take_own() {
+            out.violation = Some(to_failure(v));
+        }
+    }
+    if out.foreign.is_none() {
+        if let Some(v) = sim.mon.take_foreign() {
+            out.foreign = Some(to_failure(v));
         }
     }
     if check_fidelity && out.harness_error.is_none() {
@@ -112,7 +119,7 @@ pub fn drive<K: SimKey>(w: &mut World<K>, wl: &Workload, out: &mut Outcome) -> R
     for (i, op) in wl.ops.iter().enumerate() {
         w.step_checked(i, op)?;
         // a monitor violation ends the run at the operation boundary
-        let mv = interpose::with_sim(|s| s.mon.violation.is_some() || s.harness_error.is_some());
+        let mv = interpose::with_sim(|s| s.mon.fatal() || s.harness_error.is_some());
         if mv {
             return Ok(());
         }
@@ -159,7 +166,7 @@ fn run_plain<K: SimKey>(case: &Case) -> Outcome {
     let r = drive(&mut w, &case.workload, &mut out);
     // final clean restart (C02) unless something already failed
     let r = r.and_then(|_| {
-        if interpose::with_sim(|s| s.mon.violation.is_some()) {
+        if interpose::with_sim(|s| s.mon.fatal()) {
             Ok(())
         } else {
             w.reopen(case.workload.ops.len())
